@@ -12,6 +12,7 @@ EXPLANATION = ("Props/C09.lean: the library as a machine over an RNG tape: per-o
                "rand's contract (trusted).")
 ASSUMPTIONS = ["rand::thread_rng is an OS-seeded CSPRNG (trusted); the tap observes requests on the calling thread"]
 _st = {"logs": []}
+IMPL_SHARDS = 1     # all RNG-logged operations run one after the other on ONE thread of ONE process: mixed call sequences
 
 
 def requests(tier, rng):
@@ -55,9 +56,12 @@ def followup(stage, lines, model, checked, release, tier, rng):
                 ops.append(" ".join(t))
             else:
                 ops.append("%s::SecretKey::sign %s %s none 0 real" % (K.API[s], sk, K.hx(msg)))
+            ops.append("sign::%s::keypair %s real" % (s, "00" * 32))      # boundary seeds: still no draw
+            ops.append("sign::%s::keypair %s real" % (s, "ff" * 32))
             for op in ops:
                 for _ in range(reps):
                     L.append("@impl rnglog " + op)
+        rng.shuffle(L)      # a mixed sequence of randomized and deterministic operations of all sets
         return L
     if stage == 2:
         # replay each logged draw as a scripted tape: the model (and the code) must reproduce the logged output
@@ -109,6 +113,19 @@ def violated_all(lines, model, checked, release):
         else:
             if len(set(outs)) != 1:
                 out.append((lines.index(l), "repeated deterministic calls of %s differ" % l.split()[2]))
+    # freshness across the whole call sequence of the process: no two draws share a 12-byte window
+    seen = {}
+    for i, l in enumerate(lines):
+        if l.startswith("@impl rnglog ") and checked[i].startswith("ok "):
+            h = checked[i].split(" | ", 1)[0].split()
+            if h[3] != "-":
+                b = bytes.fromhex(h[3])
+                for k in range(0, len(b) - 11):
+                    w = b[k:k + 12]
+                    if w in seen and seen[w] != i:
+                        out.append((i, "RNG bytes served to %s repeat bytes served to an earlier call (%s) in the same sequence" % (l.split()[2], lines[seen[w]].split()[2])))
+                        break
+                    seen[w] = i
     idx = {l: i for i, l in enumerate(lines)}
     for (req, res) in _st["logs"]:
         if req in idx and checked[idx[req]] != res:
